@@ -211,7 +211,12 @@ let verdict case impl =
        let soft_ord = capped && not ordered_okb && (match o_ord with Some l -> same_set l o_iter | None -> false)
        and soft_place = capped && not place_ok
                         && List.for_all (fun x -> List.exists (fun (_, n) -> n = x) g) o_iter
-                        && nodupb o_iter && List.length o_iter = List.length spec in
+                        && nodupb o_iter
+                        (* the number of replicas does not depend on the order of equal-token entries
+                           (min(RF, nodes) per datacenter / over the ring) except for a SimpleStrategy
+                           answer restricted to a datacenter *)
+                        && ((dc <> None && (match strat with NTS _ -> false | _ -> true))
+                            || List.length o_iter = List.length spec) in
        let fails = (if views_ok then [] else ["views"]) @ (if ordered_okb || soft_ord then [] else ["ordered"])
                    @ (if pre_ok then [] else ["precomputed"]) @ (if place_ok || soft_place then [] else ["placement"]) in
        let detail = Printf.sprintf "model: len=%x iter=%s nth=%s choose=%s ordered=%s np=%s spec=%s"
